@@ -189,6 +189,121 @@ def translate_ray_bits(repo, work):
     return out
 
 
+
+# ------------------------------------------------------------------ round 8: what rounding may do to code and message
+class RoundCond:
+    """conditions of RoundSolution / ModifySolveCodeAndMessageAfterRounding over x : RoundCtx"""
+
+    def ival(self, n):
+        n = strip(n)
+        k = n.get('kind')
+        if k == 'IntegerLiteral':
+            return n['value']
+        if k in ('CallExpr', 'CXXMemberCallExpr') and len(n.get('inner', [])) == 1 and callee_name(n) == 'round':
+            return 'x.round'
+        if k in ('MemberExpr', 'CXXDependentScopeMemberExpr') and nm_of(n) == 'first' and n.get('inner') and nm_of(strip(n['inner'][0])) == 'rndres':
+            return 'x.nRounded'
+        if k == 'BinaryOperator' and n.get('opcode') == '&':
+            return '(%s &&& %s)' % (self.ival(n['inner'][0]), self.ival(n['inner'][1]))
+        raise TranslateError('rounding: integer expression %s %s not understood' % (k, nm_of(n)))
+
+    def tr(self, n):
+        n = strip(n)
+        k = n.get('kind')
+        if k == 'UnaryOperator' and n.get('opcode') == '!':
+            return '(!%s)' % self.tr(n['inner'][0])
+        if k == 'BinaryOperator' and n.get('opcode') in ('&&', '||'):
+            return '(%s %s %s)' % (self.tr(n['inner'][0]), n['opcode'], self.tr(n['inner'][1]))
+        if k == 'BinaryOperator' and n.get('opcode') in ('>', '>=', '<', '<=', '==', '!='):
+            op = {'>': '>', '>=': '≥', '<': '<', '<=': '≤', '==': '=', '!=': '≠'}[n['opcode']]
+            return 'decide (%s %s %s)' % (self.ival(n['inner'][0]), op, self.ival(n['inner'][1]))
+        if k in ('CallExpr', 'CXXMemberCallExpr') and len(n.get('inner', [])) == 1 and callee_name(n) == 'IsSolStatusRetrieved':
+            return 'x.retrieved'
+        # an integer used as a condition: non-zero
+        return 'decide (%s ≠ 0)' % self.ival(n)
+
+
+STATUS_WRITERS = ('SetStatus', 'Abort')
+
+
+def translate_rounding(repo, work):
+    tu = os.path.join(work, 'backend_tu.cc')
+    open(tu, 'w').write('#include "mp/backend-std.h"\n')
+    cond = RoundCond()
+    events = []
+
+    def status_touch(n):
+        """does this subtree change the solve code?"""
+        for c in find_all(n, 'CallExpr') + find_all(n, 'CXXMemberCallExpr'):
+            if c.get('inner') and callee_name(c) in STATUS_WRITERS:
+                return True
+        for b in find_all(n, 'BinaryOperator') + find_all(n, 'CompoundAssignOperator'):
+            if b.get('opcode', '').endswith('=') and b.get('opcode') not in ('==', '!=', '<=', '>='):
+                lhs = json.dumps(b['inner'][0])
+                if 'status_' in lhs or 'solve_code' in lhs:
+                    return True
+        return False
+
+    def walk(n, guards, fn):
+        k = n.get('kind')
+        if k == 'CompoundStmt':
+            for st in n.get('inner', []):
+                walk(st, guards, fn)
+            return
+        if k == 'IfStmt':
+            inner = n['inner']
+            c = cond.tr(inner[0])
+            walk(inner[1], guards + [c], fn)
+            if len(inner) > 2:
+                walk(inner[2], guards + ['(!%s)' % c], fn)
+            return
+        if k in ('ForStmt', 'WhileStmt', 'DoStmt', 'SwitchStmt', 'CXXTryStmt', 'CXXForRangeStmt', 'ReturnStmt', 'GotoStmt'):
+            raise TranslateError('%s: statement %s not understood' % (fn, k))
+        if status_touch(n):
+            events.append(('modify solve code', list(guards)))
+        for c in find_all(n, 'CallExpr') + find_all(n, 'CXXMemberCallExpr'):
+            if c.get('kind') in ('CallExpr', 'CXXMemberCallExpr') and c.get('inner'):
+                nm = callee_name(c)
+                if nm == 'ModifySolveCodeAndMessageAfterRounding':
+                    events.append(('call ModifySolveCodeAndMessageAfterRounding', list(guards)))
+                elif nm == 'write':
+                    lits = [json.loads(l['value']) for l in find_all(c['inner'][1], 'StringLiteral')] if len(c['inner']) > 1 else []
+                    if len(lits) != 1 or 'rounded to integer' not in lits[0]:
+                        raise TranslateError('%s: unexpected message piece %s' % (fn, lits))
+                    events.append(('write rounding note', list(guards)))
+                    # "would be " is chosen by  round() & 1 ? "" : "would be "
+                    wb = [x for x in find_all(c, 'ConditionalOperator') if 'would be ' in json.dumps(x)]
+                    if len(wb) != 1:
+                        raise TranslateError('%s: the "would be" alternative is not a single conditional' % fn)
+                    cc, t, e = [strip(y) for y in wb[0]['inner']]
+                    if t.get('kind') != 'StringLiteral' or e.get('kind') != 'StringLiteral':
+                        raise TranslateError('%s: "would be" conditional not understood' % fn)
+                    says = json.loads(e['value']) == 'would be '
+                    if not says and json.loads(t['value']) != 'would be ':
+                        raise TranslateError('%s: "would be" conditional not understood' % fn)
+                    g = cond.tr(cc)
+                    events.append(('note says "would be"', list(guards) + ['(!%s)' % g if says else g]))
+
+    set_source(os.path.join(repo, 'include/mp/backend-std.h'))
+    _, b1 = gr.method_body(repo, tu, 'StdBackend::RoundSolution', 'RoundSolution', 'include/mp/backend-std.h')
+    walk(b1, [], 'RoundSolution')
+    _, b2 = gr.method_body(repo, tu, 'StdBackend::ModifySolveCodeAndMessageAfterRounding', 'ModifySolveCodeAndMessageAfterRounding', 'include/mp/backend-std.h')
+    # inlined at its (single) call site: its guards are those of the call
+    callg = [g for l, g in events if l == 'call ModifySolveCodeAndMessageAfterRounding']
+    if len(callg) != 1:
+        raise TranslateError('RoundSolution: expected one call of ModifySolveCodeAndMessageAfterRounding, found %d' % len(callg))
+    walk(b2, callg[0], 'ModifySolveCodeAndMessageAfterRounding')
+    # DoRound: values are assigned only under  fAssign = round() & 1 ; must not touch the status either
+    d3, b3 = gr.method_body(repo, tu, 'StdBackend::DoRound', 'DoRound', 'include/mp/backend-std.h')
+    if status_touch(b3):
+        events.append(('modify solve code', []))
+    fa = [v for v in find_all(b3, 'VarDecl') if v.get('name') == 'fAssign' and v.get('inner')]
+    if len(fa) != 1:
+        raise TranslateError('DoRound: fAssign not found')
+    assigns = RoundCond().tr(fa[0]['inner'][0])
+    return events, assigns
+
+
 def main(repo, out, work):
     os.makedirs(work, exist_ok=True)
     tus = os.path.join(work, 'solverbase_tu.cc')
@@ -204,6 +319,7 @@ def main(repo, out, work):
         flagvals[f] = v
     events = translate_app_handler(repo, work, flagvals)
     rays = translate_ray_bits(repo, work)
+    rev, rassign = translate_rounding(repo, work)
     o = ['/- GENERATED by translators/gen_flags.py from include/mp/solver-io.h (AppSolutionHandlerImpl::HandleSolution),',
          '   include/mp/solver-base.h (wantsol flag values) and include/mp/backend-mip.h (need_ray_primal / need_ray_dual).',
          '   Do not edit: regenerated on every check run. -/',
@@ -224,10 +340,18 @@ def main(repo, out, work):
     o.append('def needRayPrimal (rays : Nat) : Bool := %s' % rays['need_ray_primal'])
     o.append('def needRayDual (rays : Nat) : Bool := %s' % rays['need_ray_dual'])
     o.append('')
+    o.append('/-- StdBackend::RoundSolution with ModifySolveCodeAndMessageAfterRounding inlined: every step with its condition;')
+    o.append('    a statement that changes the solve code (SetStatus, Abort, assignment to status_) would appear as `modify solve code` -/')
+    o.append('def roundTable : List (String × (RoundCtx → Bool)) := [')
+    o.append(',\n'.join('  (%s, fun x => %s)' % (lean_str(l), ' && '.join(g) if g else 'true') for l, g in rev))
+    o.append(']')
+    o.append('/-- DoRound: `const bool fAssign = round() & 1` — the values are replaced by the rounded ones -/')
+    o.append('def roundAssigns (x : RoundCtx) : Bool := %s' % rassign)
+    o.append('')
     o.append('end MpVerif.Gen.StatusFlags')
     text = '\n'.join(o) + '\n'
     changed = write_if_changed(out, text)
-    print('gen_flags: %d app-handler steps, %d flag values, 2 ray bit tests; %s %s' % (len(events), len(flagvals), out, 'rewritten' if changed else 'unchanged'))
+    print('gen_flags: %d app-handler steps, %d flag values, 2 ray bit tests, %d rounding steps; %s %s' % (len(events), len(flagvals), len(rev), out, 'rewritten' if changed else 'unchanged'))
 
 
 if __name__ == '__main__':
